@@ -92,9 +92,14 @@ def _pushpop(P):
                 bk = key(hbound)
                 bi = [k for k, q in enumerate(h.params) if q[0] == bk]
                 bound_ok = (bk == h.params[si[0]][0] + "->size" and False) or (bi and bi[0] < len(args) and entry_size(f, args[bi[0]]))
-                negated = False
-                dom_ok = all(f.cfg.dominates(c["i"], r["i"]) for r in rec)
-                if hit and bound_ok and dom_ok and skips(f, i["c"][1]):
+                # with the predicate decided "hit", no recursive call can run (whatever the shape of the branch: goto,
+                # continue, or the recursion sitting in the else branch)
+                from .prog import edpe_blocks
+                cid = c.get("i")
+                on_hit = edpe_blocks(f, "?none", 0, extra_decide=lambda t_, cid=cid: True if (strip(t_) or {}).get("i") == cid else None)
+                pos_ = f.cfg.positions()
+                rec_dead = all(pos_.get(r["i"], (None,))[0] not in on_hit for r in rec)
+                if hit and bound_ok and rec_dead:
                     loop_ok = True
                     loop_where = f.where(i)
     # the name tested is the name pushed: same expression, and its object is not edited in between
@@ -983,6 +988,169 @@ def r_highbyte(P, chk):
                                   "%s compares a single text byte with 0x%02x: bytes >= 0x80 are parts of multi-byte characters, not "
                                   "characters" % (f.name, cv & 0xff))
     chk.floor(rid, n, 1, "comparisons of text bytes with high constants")
+
+
+# ---------------------------------------------------------------------------
+# R-PUSHPOP/canonical (C13): the name the cycle guard compares must not grow from one level of the recursion to the next
+
+CANONICALISERS = {"realpath", "absolute_path_for_argument"}
+
+
+def r_canonkey(P, chk):
+    """The visited-stack guard compares path *strings*.  It can only ever match if the string built for a file at level
+    n+1 is not derived, by appending, from the string pushed at level n: otherwise a file that includes itself gets a
+    longer name each time round.  Dataflow: the pushed name K is handed to the recursive call as some parameter p; no
+    definition derived from p may reach the construction of K at the next level except through a canonicaliser
+    (realpath: its failure means the folder does not exist, so nothing below it can be read and the recursion stops)."""
+    from .prog import edpe_blocks, single_assignment_locals
+    rid = "R-PUSHPOP/canonical"
+    chk.rule(rid, "mmd_transclude_source: the name pushed on the stack of files being expanded is not built, at the next level "
+                  "of the recursion, from the previous level's name except through realpath (a name that grows per level never "
+                  "matches the membership test)")
+    f = P.func("mmd_transclude_source", "transclude.c")
+    rec = list(f.calls("mmd_transclude_source"))
+    pidx = [i for i, q in enumerate(f.params) if "stack" in q[1]]
+    if not rec or not pidx:
+        raise AnalysisBroken("mmd_transclude_source no longer recurses with a stack: R-PUSHPOP/canonical needs re-reading")
+    stk = key(rec[0]["c"][1 + pidx[0]])
+    pushes = [c for c in f.calls("stack_push") if key(c["c"][1]) == stk]
+    if not pushes:
+        raise AnalysisBroken("mmd_transclude_source: nothing is pushed on %s" % stk)
+    roots = set()
+    for q in pushes:
+        m = re.match(r"[\(\*&]*([A-Za-z_]\w*)", key(q["c"][2]))
+        if m:
+            roots.add(m.group(1))
+    names = lambda e: {y["n"] for y in walk(e) if y["k"] == "DeclRefExpr" and y.get("dk") in ("Var", "Parm", "ParmVar")}
+    carried = set()
+    for r in rec:
+        for i, a in enumerate(r["c"][1:]):
+            if i < len(f.params) and names(a) & roots:
+                carried.add(f.params[i][0])
+    pos = f.cfg.positions()
+
+    def stmt_of(n):
+        z = n
+        while z is not None and z.get("i") not in pos:
+            z = f.parent(z)
+        return z
+
+    def top_call(e):
+        e = strip(e)
+        return e.get("callee") if e is not None and e["k"] == "CallExpr" else None
+
+    # definitions: (variable, statement, right-hand side names, is-canonicalised)
+    defs = []
+    for x in f.walk():
+        if x["k"] == "BinaryOperator" and x["op"] == "=":
+            l = strip(x["c"][0])
+            if l is not None and l["k"] == "DeclRefExpr":
+                defs.append((l["n"], x, names(x["c"][1]), top_call(x["c"][1]) in CANONICALISERS))
+        elif x["k"] == "VarDecl" and x.get("c") and x["c"][0] is not None:
+            defs.append((x["n"], x, names(x["c"][0]), top_call(x["c"][0]) in CANONICALISERS))
+        elif x["k"] == "CallExpr" and x.get("callee"):
+            outs = [strip(a["c"][0])["n"] for a in map(strip, x["c"][1:]) if a is not None and a["k"] == "UnaryOperator" and a["op"] == "&"
+                    and strip(a["c"][0]) is not None and strip(a["c"][0])["k"] == "DeclRefExpr"]
+            if outs:
+                ins = set()
+                for a in x["c"][1:]:
+                    sa = strip(a)
+                    if not (sa is not None and sa["k"] == "UnaryOperator" and sa["op"] == "&"):
+                        ins |= names(a)
+                for o in outs:
+                    defs.append((o, x, ins, x["callee"] in CANONICALISERS))
+            elif x["callee"].startswith(("d_string_append", "d_string_insert", "d_string_prepend", "strcat", "strncat")) and len(x["c"]) > 2:
+                t = strip(x["c"][1])
+                if t is not None and t["k"] == "DeclRefExpr":
+                    defs.append((t["n"], x, names(x["c"][2]) | {t["n"]}, False))
+    # locals that hold the result of a canonicaliser: `if (canonical)` is decided true (failure = folder does not exist)
+    canon = {nm for nm, init in single_assignment_locals(f).items() if top_call(init) in CANONICALISERS}
+
+    def decide(t):
+        t = strip(t)
+        if t is None:
+            return None
+        if t["k"] == "DeclRefExpr" and t["n"] in canon:
+            return True
+        if t["k"] == "BinaryOperator" and t["op"] in ("!=", "=="):
+            a, b = strip(t["c"][0]), strip(t["c"][1])
+            for u, w in ((a, b), (b, a)):
+                if u is not None and u["k"] == "DeclRefExpr" and u["n"] in canon and const_value(w) == 0:
+                    return t["op"] == "!="
+        return None
+    edges = set()
+    edpe_blocks(f, "?none", 0, extra_decide=decide, edges_out=edges)
+    succ = {}
+    for a, b in edges:
+        succ.setdefault(a, []).append(b)
+
+    def reaches(a, b, var):
+        """statement b can run after statement a with no other definition of var in between (pruned CFG)"""
+        sa, sb = stmt_of(a), stmt_of(b)
+        if sa is None or sb is None:
+            return True
+        ab, ai = pos[sa["i"]]
+        bb, bi = pos[sb["i"]]
+        cut = {}
+        for v, d, _, _ in defs:
+            if v == var and d is not a and d is not b:
+                sd = stmt_of(d)
+                if sd is not None:
+                    cut.setdefault(pos[sd["i"]][0], []).append(pos[sd["i"]][1])
+        if ab == bb and bi > ai and not any(ai < ci < bi for ci in cut.get(ab, ())):
+            return True
+        if any(ci > ai for ci in cut.get(ab, ())):
+            return False
+        seen, st = set(), list(succ.get(ab, ()))
+        while st:
+            x = st.pop()
+            if x in seen:
+                continue
+            seen.add(x)
+            cs = cut.get(x, ())
+            if x == bb and not any(ci < bi for ci in cs):
+                return True
+            if cs:
+                continue
+            st.extend(succ.get(x, ()))
+        return False
+
+    tainted = {}          # id(def statement), var -> chain description
+    changed = True
+    while changed:
+        changed = False
+        for v, d, ins, can in defs:
+            if (id(d), v) in tainted or can:
+                continue
+            why = None
+            for u in ins:
+                if u in carried:
+                    why = "parameter %s (the previous level's %s)" % (u, "/".join(sorted(roots)))
+                    break
+                for v2, d2, _, _ in defs:
+                    if v2 == u and (id(d2), v2) in tainted and d2 is not d and reaches(d2, d, u):
+                        why = tainted[(id(d2), v2)] + " -> %s at %s" % (u, f.where(d2))
+                        break
+                    if v2 == u and d2 is d and (id(d2), v2) in tainted:
+                        continue
+                if why:
+                    break
+            if why:
+                tainted[(id(d), v)] = why
+                changed = True
+    sinks = [(v, d) for v, d, _, _ in defs if v in roots]
+    chk.floor(rid, len(sinks), 2, "statements that build the pushed name")
+    chk.obligation(rid, "the recursive call carries the pushed name into parameter(s) %s" % (sorted(carried) or "none"), True, nontrivial=bool(carried))
+    for v, d in sinks:
+        w = tainted.get((id(d), v))
+        chk.obligation(rid, "%s: `%s` is not derived from the previous level's name" % (f.where(d), f.src(d)[:70]), w is None)
+        if w is not None:
+            chk.violation(rid, "pushpop:growing-name", f.where(d),
+                          "the name compared by the cycle guard is built from the previous level's name without being canonicalised "
+                          "(%s -> %s): with a transclude base such as `.` a self-including file gets a longer path at every level, the "
+                          "guard never matches and expansion does not terminate" % (w, v))
+    chk.analysed[rid] = {"definitions": len(defs), "carried_params": sorted(carried), "canonical_locals": sorted(canon),
+                         "tainted_definitions": len(tainted)}
 
 
 # ---------------------------------------------------------------------------
